@@ -7,7 +7,8 @@ Import ListNotations.
 Open Scope Z_scope.
 
 (* what the end-to-end driver sees of the wrapper: is the remote in the peer registry, the
-   notifier.Connected calls, the block placed on the remote (-1 none, 0 for ever, else ns) *)
+   notifier.Connected calls, the block placed on the remote (-1 none, 0 for ever, else ns; -3 when
+   BlockedPeers cannot show it because the remote's peer id has no Ethereum address) *)
 Record wrapobs := { w_registered : bool; w_notified : list (bytes * Z); w_block : Z }.
 
 Record case := {
@@ -105,7 +106,7 @@ Definition wrap_agrees (c : case) : bool :=
       let e := model_effects c in
       Bool.eqb (w_registered w) (eff_registered e) &&
       list_eqb note_eqb (w_notified w) (eff_notified e) &&
-      (w_block w =? eff_block e)
+      ((w_block w =? -3) || (w_block w =? eff_block e))   (* -3: not observable (remote without address) *)
   end.
 
 (* every signature question the model asks must have been answered by the driver *)
